@@ -150,6 +150,7 @@ func (m *CPU) Run(app risc.Application) (int, error) {
 					cycle++
 					m.ctx.VerifTick(3, cycle)
 					wu.cycle(m.ctx, from)
+					m.writeBus.Connect(cycle + 1)
 				}
 			}
 
